@@ -23,7 +23,14 @@ import traceback
 HERE = os.path.dirname(os.path.dirname(os.path.abspath(__file__)))
 REPO = os.environ.get('J1939_REPO', '/repo')
 PY = os.environ.get('VERIF_PYTHON', '/venv/bin/python')
+# The guard around one case is decided on the worker's own processor time, not on the wall clock: on a loaded machine a healthy case may
+# take minutes of wall time.  It fires when the case has burnt CASE_CPU_LIMIT seconds of processor time (a spin / livelock), or when after
+# CASE_WALL_LIMIT seconds of wall time the process has made no progress at all for CASE_IDLE_WINDOW seconds (blocked in a real primitive;
+# a starved process still gets a share of a processor), or -- inconclusive only, never a violation -- after CASE_WALL_HARD seconds.
 CASE_WALL_LIMIT = float(os.environ.get('VERIF_CASE_WALL', '60'))
+CASE_CPU_LIMIT = float(os.environ.get('VERIF_CASE_CPU', '90'))
+CASE_IDLE_WINDOW = 20.0
+CASE_WALL_HARD = float(os.environ.get('VERIF_CASE_WALL_HARD', '1200'))
 MAX_STALLS = 3
 
 
@@ -49,6 +56,8 @@ class _Watchdog:
 
     def arm(self, case_id):
         self.case_id = case_id
+        self.cpu0 = time.process_time()
+        self.hist = []
         self.t0 = self.engine.real_monotonic()
 
     def disarm(self):
@@ -59,7 +68,15 @@ class _Watchdog:
         while True:
             eng.real_sleep(1.0)
             t0 = self.t0
-            if t0 is not None and eng.real_monotonic() - t0 > CASE_WALL_LIMIT:
+            if t0 is None:
+                continue
+            now, cpu = eng.real_monotonic(), time.process_time()
+            self.hist.append((now, cpu))
+            self.hist = [h for h in self.hist if h[0] >= now - CASE_IDLE_WINDOW - 1.5]
+            spinning = cpu - self.cpu0 > CASE_CPU_LIMIT
+            blocked = (now - t0 > CASE_WALL_LIMIT and self.hist[0][0] <= now - CASE_IDLE_WINDOW and cpu - self.hist[0][1] < 0.2)
+            hard = now - t0 > CASE_WALL_HARD
+            if self.t0 is t0 and (spinning or blocked or hard):
                 # where is it stuck?  Five samples 40 ms apart; per thread the innermost frame that belongs either to the repository or to the
                 # harness (frames of the standard library -- print, logging, queue -- are skipped).  A stall is attributed to the repository
                 # if one thread shows a repository frame there in at least four of the five samples (a thread parked by the scheduler shows
@@ -84,7 +101,9 @@ class _Watchdog:
                 for tid, lst in hits.items():
                     if len(lst) >= 4:
                         where = max(set(lst), key=lst.count)
-                rec = dict(id=self.case_id, stalled=True, where=where, stacks=stacks)
+                if not (spinning or blocked):
+                    where = None         # merely slow on the wall clock: never a verdict on the repository
+                rec = dict(id=self.case_id, stalled=True, where=where, stacks=stacks, why='spinning' if spinning else 'blocked' if blocked else 'wall')
                 self.out.write(json.dumps(rec) + '\n')
                 self.out.flush()
                 os._exit(3)
@@ -107,6 +126,7 @@ def worker_main(prop, infile, outfile):
     for case in cases:
         wd.arm(case['id'])
         t0 = engine.real_monotonic()
+        c0 = time.process_time()
         try:
             res = mod.run_case(case)
         except engine.HarnessError as e:
@@ -122,6 +142,7 @@ def worker_main(prop, infile, outfile):
         wd.disarm()
         res['id'] = case['id']
         res['wall'] = engine.real_monotonic() - t0
+        res['cpu'] = time.process_time() - c0
         out.write(json.dumps(res, default=_js) + '\n')
         out.flush()
     out.close()
@@ -383,6 +404,7 @@ def report(mod, prop, tier, seed, cases, results, problems, wall, write_evidence
             f.write('\n')
     if os.environ.get('VERIF_PRINT_COUNTERS'):
         print('COUNTERS ' + json.dumps(dict(sorted(obs.items()))))
+        print('SLOWEST cpu=%.1fs wall=%.1fs' % (max([r.get('cpu', 0) for r in results.values()] + [0]), max([r.get('wall', 0) for r in results.values()] + [0])))
     print('%s %s seed=%d: %d cases, %d distinct non-trivial, %d new violations, %d known-finding signatures, %.1fs -> %s'
           % (prop, tier, seed, len(results), len(nontrivial_sigs), len(viol_new), len(known_hits), wall,
              {0: 'HELD', 1: 'VIOLATED', 2: 'INCONCLUSIVE'}[rc]))
